@@ -52,7 +52,7 @@ sys.exit(1 if bad else 0)
 '''
 
 
-def kernel_obligations(mod, stubs, cfg, st, timeout):
+def kernel_obligations(mod, stubs, cfg, st, timeout, inline=False):
     """cfg: dict n,d,sc,fc (int or None=symbolic), tlo, thi (time range in seconds).  Returns (results, witness_case, paths, ex)"""
     res = []   # (name, verdict 'unsat'|'sat'|'unknown', model_case|None, dt)
     info = {}
@@ -140,7 +140,7 @@ def kernel_obligations(mod, stubs, cfg, st, timeout):
                 r, m = smt.solve(pc, extra, 30, st)
                 if r == 'sat': info.setdefault('bwit', []).append(mk(m))
 
-    ex = Exec(mod, stubs, summaries=kernels.TIME_SUMMARIES)
+    ex = Exec(mod, stubs, summaries={} if inline else kernels.TIME_SUMMARIES)       # inline: the real kernels are executed, not their specs
     ex.explore('@digital_rf_get_subdir_file', setup, on_path)
     return res, info, ex
 
@@ -343,7 +343,20 @@ def main(tier):
                'k<2^63,n<2^32,d<=1e9,n*d<2^64,year<9999; all symbolic', nk, sum(x[3] for x in kp['floor'] + kp['ceil']), 2)
     else:
         bad = [x[0] for x in kp['floor'] + kp['ceil'] if x[1] != 'unsat']
-        rep.ob('time kernels == their specs (gate)', 'inconclusive', detail='not proved: %s (see C03); layout obligations not attempted' % bad[:4])
+        # the kernels cannot stand in for their specs: decide the layout obligations with the REAL kernels executed inline, per configuration
+        found = False; tried = 0; t1 = time.time()
+        for (n, d) in [r_ for r_ in rate_list if r_[1] > 1] + [r_ for r_ in rate_list if r_[1] == 1]:
+            for (sc, fc) in cad_list:
+                if fc * n < 1000 * d or found or time.time() - t1 > (240 if tier == 'quick' else 1800): continue
+                cfg = dict(n=n, d=d, sc=sc, fc=fc, tlo=rates.Y1980, thi=rates.Y2100)
+                try:
+                    res, info, ex = kernel_obligations(mod, stubs, cfg, st, 60, inline=True)
+                except Inconclusive:
+                    continue
+                tried += 1
+                ok_, _names = report('rate %d/%d cadence %ds/%dms (kernels inline)' % (n, d, sc, fc), cfg, res, info, ex, t1)
+                found = found or bool(rep.violations)
+        rep.ob('time kernels == their specs (gate)', 'inconclusive', detail='not proved: %s (see C03); layout decided with the kernels inline for %d configurations' % (bad[:4], tried))
         return rep.finish()
     # ---- 1. everything symbolic (rate, cadences, start, sample): attempted; restricted claim if the solver gives up
     t0 = time.time()
